@@ -10,7 +10,7 @@ SCOPE = [("ind:ALL", 300, 40), ("amorph:ALL", 150, 40), ("analysis:ALL", 100, 24
          ("hexital", 80, 40), ("hexital.ha", 60, 40)]
 ORACLE_RULE = "C02: see hx/oracles/framework.py (c02_case): random indicator spec (26 kinds + Amorph wrappers) x stream style x timeframe/fill x schedule on the real code; Hexital level (hx/oracles/facade.py: case_c02_hexital): 1-4 members on their own timeframes x Hexital timeframe / fill / Heikin-Ashi x schedule, every manager of Hexital.get_candles() snapshotted after every append"
 ASSUMPTIONS = ["TZ=UTC for this check"]
-PARTIAL = 'proved for all 27 shipped indicator classes (C02_trees over CoveredTreeX: closed candles of an earlier snapshot are a prefix of every later snapshot, any timeframe / fill; batch_truncation_trees) with candle-attribute inputs; indicator-valued inputs on one manager (every dependent class over every source class, chains of any length, any timeframe / fill: C02_pair_more, C02_chain_more); members on different timeframes and the parameter corners of C01_FULL: C02_FULL, correspondence + search only (Hexital level: tie + oracle case_c02_hexital)'
+PARTIAL = 'proved for all 27 shipped indicator classes (C02_trees over CoveredTreeX: closed candles of an earlier snapshot are a prefix of every later snapshot, any timeframe / fill; batch_truncation_trees) with candle-attribute inputs; indicator-valued inputs on one manager (every dependent class over every source class, chains of any length, any timeframe / fill: C02_pair_more, C02_chain_more); members on different timeframes and the parameter corners of C01_FULL: C02_FULL, correspondence + search only (Hexital level: tie + oracle case_c02_hexital). Round 8: Heikin-Ashi managers - alone (every candle of the earlier snapshot is final: full prefix, batch_truncation_trees_ha), on a collapsing timeframe and with gap filling (closed buckets are a prefix), all 27 classes and chains (C02_trees_mgr, C02_trees_ha, C02_trees_haCfg, C02_chain_more_ha / _haCfg)'
 
 
 def oracle(ctx):
